@@ -16,7 +16,6 @@ NA = {
  "C18":"a cost bound over single inputs; worst-case input families are an input-generation question with no interleaving, fault or history",
 }
 PENDING = {
- "C15": "C-table lane (C driver compiled against c_hook.h, differential vs native API) is still under construction in this round; will be claimed once its check runs clean (DESIGN.md section 5.5)",
 }
 CLAIMED = {
  "C08": dict(cat="exploration", sec="5.1", engine="lane-N",
@@ -35,6 +34,10 @@ CLAIMED = {
    technique="seeded simulation of complete delete-while-iterating walks against a reference model",
    text="Sections of 0-12 uniquely tagged records (all four sections, OPT first/middle/last/absent, compressed or not) walked to the end with a seeded deletion policy (which records, on which visit, optional double delete); checks bounded termination ((n+1)^2+4 yields), exact removal, void-record on second delete with nothing touched, no yield that is not a current record with the model's content, every survivor yielded at least once, final section = survivors in order with matching count, emptied section absent.",
    note="The cursor is identified with a record through its public offset(), so no particular restart protocol is assumed; OPT is required to be yielded only by walks that use next_including_opt throughout."),
+ "C15": dict(cat="exploration", sec="5.5", engine="lane-C",
+   technique="deterministic simulation of hook scripts: C driver compiled against the shipped header vs native API twin (differential), canaries, crash attribution",
+   text="Seeded hook scripts (top-level table calls and per-record callback programs, with injected failing calls) are executed by a C interpreter compiled by the system compiler against /repo/src/bin/c_hook/c_hook.h through `const FnTable *`, and in lockstep through the native Rust API on a twin packet; per step the return values, out-parameters, NUL-terminated names, error descriptions, packet bytes and object state must be equal. Caller buffers are exact-size and fenced by canaries; a worker process that dies inside a table call on a precondition-respecting script is a violation attributed to the run and call in flight; one signature probe per table entry is compiled against the header at build time.",
+   note="The native API is the reference, so defects shared by both sides are invisible here (C08-C11 cover them); the native call runs first and a native panic ends the script without involving the table. Canaries catch contiguous overruns only. Probe argument types were derived from src/c_abi.rs at the pinned commit."),
  "C16": dict(cat="exploration", sec="5.6", engine="lane-T",
    technique="deterministic step scheduler over real parked OS threads (seeded uniform and PCT schedules)",
    text="2-4 real OS threads (real thread_local! storage) each run a seeded script of failing table calls (12 kinds), description reads and succeeding calls; a simulator thread alone chooses, from the seed, which thread performs its next call, so every interleaving is exactly repeatable. At every read the string must equal the text of that thread's most recent failure, the expected text being taken from the native error of the same call.",
@@ -65,6 +68,7 @@ m = {
            "source_commits": [], "add_only": True},
  "engines": [
    {"name": "lane-N", "path": "sim/src/exec.rs", "serves_properties": ["C08","C09","C10","C11"], "kind_free_text": "seeded operation-history simulator: real library vs reference model, oracles after every step, injected failing operations, minimiser, replay"},
+   {"name": "lane-C", "path": "sim/src/lane_c.rs, sim/cdriver/driver.c, sim/build.rs", "serves_properties": ["C15"], "kind_free_text": "byte-coded hook scripts interpreted by a C driver compiled against c_hook.h and by a native twin; differential oracle, canaries, child-process crash attribution, per-entry signature probes"},
    {"name": "lane-T", "path": "sim/src/lane_t.rs", "serves_properties": ["C16","C17"], "kind_free_text": "deterministic step scheduler over real parked OS threads (one runnable thread at a time; seeded uniform/PCT schedules)"},
  ],
  "checks": [check(p, c) for p, c in sorted(CLAIMED.items())],
